@@ -282,13 +282,13 @@ pub struct NoInfo;
 #[derive(TypeInfo)]
 pub struct Wrapper<X>(pub X);
 pub struct NoInfoW<X>(pub X);
-pub trait Tr { type A; }
+pub trait Tr { type A; type S; }
 #[derive(TypeInfo)]
 pub struct Good;
-impl Tr for Good { type A = u8; }
+impl Tr for Good { type A = u8; type S = u8; }
 #[derive(TypeInfo)]
 pub struct Bad;
-impl Tr for Bad { type A = NoInfo; }
+impl Tr for Bad { type A = NoInfo; type S = NoInfo; }
 '''
 
 
@@ -314,6 +314,19 @@ class A(T):
 
     def proto(self):
         return f'adt {2000 + self.k} 0'
+
+
+class AS(T):
+    """associated type named like the deriving type itself: `T::S`"""
+    def __init__(self, k):
+        super().__init__('AS')
+        self.k = k
+
+    def rust(self):
+        return 'TU'[self.k] + '::S'
+
+    def proto(self):
+        return f'adt {2500 + self.k} 0'
 
 
 class Named(T):
@@ -354,7 +367,7 @@ def gen_gfield_type(r, params, assoc_ok, selfref):
     if c < 0.76:
         return Named('NoInfoW', p)
     if c < 0.82 and assoc_ok[k]:
-        return A(k)
+        return A(k) if r.random() < 0.5 else r.choice([AS(k), T('vec', AS(k))])
     if c < 0.90:
         return selfref
     if c < 0.95:
@@ -370,6 +383,8 @@ def gen_gen(r):
     lifetime = r.random() < 0.15
     const = r.random() < 0.15
     default_u = np == 2 and r.random() < 0.2 and not with_assoc[1]
+    if default_u:
+        const = False   # a parameter with a default must be trailing
     qself = r.random() < 0.06
     args_text = ', '.join((["'a"] if lifetime else []) + names + (['N'] if const else []))
     self_text = ('crate::S' if qself else 'S')
@@ -382,6 +397,10 @@ def gen_gen(r):
         skip = r.random() < 0.2
         compact = (not skip) and isinstance(ty, P) and r.random() < 0.3
         fields.append([ty, skip, compact])
+    # an associated type that happens to be named like the declared type itself (`T::S` inside `S<T>`)
+    for k in range(np):
+        if with_assoc[k] and r.random() < 0.6:
+            fields.insert(r.randrange(len(fields) + 1), [r.choice([AS(k), T('vec', AS(k)), T('opt', AS(k))]), False, False])
     # the same parameter-dependent type used plainly and, later or earlier, as a compact member
     if r.random() < 0.3:
         k = r.randrange(np)
@@ -394,7 +413,7 @@ def gen_gen(r):
         def uses(t):
             if isinstance(t, Named) and t.name == 'self':
                 return False
-            return (isinstance(t, (P, A)) and t.k == k) or any(uses(a) for a in t.args)
+            return (isinstance(t, (P, A, AS)) and t.k == k) or any(uses(a) for a in t.args)
         if not any(uses(f[0]) for f in fields):
             fields.append([T('ph', P(k)), False, False])
     custom = None
